@@ -332,7 +332,11 @@ def step (cfg : TreeCfg) (t : TNode) (op : Op) (obs : Obs) : Except String TNode
       let got := sortRows (rows.filter fun r => !isDot r.1)
       let want := sortRows out.listing
       if got == want then .ok out.tree
-      else .error s!"listing-differs got {got.map (·.1)} want {want.map (·.1)}"
+      else
+        let show3 (r : String × Bool × Nat) : String := s!"{r.1}{if r.2.1 then "/" else ""}:{r.2.2}"
+        match (got.zip want).find? fun (a, b) => a != b with
+        | some (a, b) => .error s!"listing-differs first difference: listed {show3 a}, spec {show3 b} ({got.length} vs {want.length} rows)"
+        | none => .error s!"listing-differs listed {got.map (·.1)}, spec {want.map (·.1)}"
 
 /-! ## Relation to decoded images -/
 
